@@ -127,6 +127,11 @@ def gen_disj(full):
   yield Case('DISJ', Program([R('T', named={'a': x, 'b': y, 'c': N(1)}, body=bodies[0]), R('T', named={'c': x, 'a': y, 'b': N(2)}, body=bodies[1]), R('T', named={'b': x, 'c': y, 'a': N(3)}, body=bodies[0])]), ['T'])
   yield Case('DISJ', Program([R('T', named={'a': N(1), 'b': N(2)}), R('T', named={'b': N(3), 'a': N(4)}), R('U', x, y, body=(Lit('T', a=x, b=y),))]), ['T', 'U'])
   yield Case('DISJ', Program([R('P', named={'a': x, 'b': y}, body=bodies[0]), R('P', named={'b': x, 'a': Bin('*', y, N(10))}, body=bodies[0]), R('T', x, y, body=(Lit('P', b=y, a=x), Lit('B', x)))]), ['T', 'P'])
+  # ... and a positional argument N is the named argument colN
+  for b1 in bodies[:3]:
+    yield Case('DISJ', Program([R('T', x, y, body=b1), R('T', named={'col1': x, 'col0': y}, body=b1)]), ['T'])
+    yield Case('DISJ', Program([R('T', named={'col1': x, 'col0': y}, body=b1), R('T', x, y, body=b1)]), ['T'])
+    yield Case('DISJ', Program([R('T', x, y, named={'z': N(0)}, body=b1), R('T', named={'z': N(1), 'col1': x, 'col0': y}, body=b1), R('T', y, named={'col1': N(5), 'z': x}, body=b1)]), ['T'])
   # three alternatives, three rules
   for b1, b2, b3 in itertools.product(bodies[:4], repeat=3):
     yield Case('DISJ', Program([R('T', x, y, body=(('or', (b1, b2, b3)),))]), ['T'])
